@@ -1485,12 +1485,14 @@ Proof.
       let H := fresh "Hrun" in pose proof (forallb_qd_txt _ (qd_run_chars b a)) as H;
       destruct (qd_run a b) as [? ?]; cbn [fst] in H
   | |- context [if ?c then _ else _] => destruct c eqn:?
-  end; try exact I; try exact Hv;
-  rewrite ?forallb_app; cbn [forallb]; rewrite ?Hv, ?Hrun; cbn [andb]; try reflexivity;
-  rewrite andb_true_r;
-  match goal with H : true && (bad_escaped ?x || _) = false |- txt_char ?x = true =>
-    cbn [andb] in H; apply orb_false_elim in H; destruct H as [H _];
-    rewrite bad_escaped_is_unpairable in H; unfold txt_char; destruct (rfc_pairable x); [reflexivity|discriminate] end.
+  end; try exact I; try exact Hv.
+  all: rewrite ?forallb_app; cbn [forallb]; rewrite ?Hv, ?Hrun; cbn [andb]; try reflexivity.
+  all: rewrite ?andb_true_r.
+  all: match goal with H : true && (bad_escaped _ || _) = false |- _ =>
+         cbn [andb] in H; apply orb_false_elim in H; destruct H as [H _];
+         rewrite bad_escaped_is_unpairable in H; unfold txt_char end.
+  all: match goal with H : negb (rfc_pairable ?x) = false |- rfc_pairable ?x = true =>
+         destruct (rfc_pairable x); [reflexivity|discriminate] end.
 Qed.
 
 Lemma pqs_loop_chars : forall fuel pos k len val t, forallb txt_char val = true ->
@@ -1621,8 +1623,7 @@ Proof.
   induction X as [|c r IH]; intros H; [reflexivity|].
   cbn [forallb] in H. apply andb_prop in H. destruct H as [Hc Hr].
   unfold esc. cbn [flat_map]. fold (esc r). destruct (is_special c) eqn:Es.
-  - cbn [app scan_q N.eqb Pos.eqb]. destruct (esc r ++ [34]) eqn:E; [destruct (esc r); discriminate|].
-    rewrite <- E. now apply IH.
+  - cbn [app scan_q N.eqb Pos.eqb]. now apply IH.
   - cbn [app scan_q]. unfold is_special in Es.
     replace (c =? 34) with false by lia. replace (c =? 92) with false by lia. now apply IH.
 Qed.
@@ -2072,4 +2073,16 @@ Proof.
   assert (E : forallb (fun i => match d_num i with None => true | Some _ => false end) (list_items 44 ex_invalid) = true)
     by (vm_compute; reflexivity).
   rewrite forallb_forall in E. specialize (E it Hin). destruct (d_num it); [discriminate|reflexivity].
+Qed.
+
+Lemma quote_roundtrip X junk : forallb txt_char X = true ->
+  rfc_unquote (quote_string X ++ junk) = Some X /\
+  parse_quoted_string (quote_string X) (lenN (quote_string X)) = QOk X.
+Proof. intros H. split; [now apply quote_unquote|now apply pqs_quote_string]. Qed.
+
+Lemma pairs_local v : Forall (fun p => forall st,
+  cc_step st (fst p) (snd p) = cc_step st (fst p) (fst p)) (pairs_of v).
+Proof.
+  pose proof (pairs_of_wf v) as H. induction H as [|[it tl] ps Hp Hps IH]; constructor; [|exact IH].
+  intros st. cbn [fst snd]. apply (cc_step_local st it tl Hp).
 Qed.
